@@ -715,3 +715,461 @@ Section DateFacts.
       eapply Iso; eauto.
   Qed.
 End DateFacts.
+
+(** * Typed field states and extension of a state by setters *)
+Definition ftype (f : field) (v : Z) : Prop :=
+  match f with
+  | F_year | F_year_div_100 | F_year_mod_100 | F_isoyear | F_isoyear_div_100 | F_isoyear_mod_100
+  | F_offset => in_i32 v = true
+  | F_weekday => 0 <= v <= 6
+  | F_timestamp => in_i64 v = true
+  | _ => 0 <= v <= u32_max
+  end.
+(** every field holds a value of its Rust type *)
+Definition typed (p : parsed) : Prop := forall f v, pget f p = Some v -> ftype f v.
+Definition extends (p q : parsed) : Prop := forall f v, pget f p = Some v -> pget f q = Some v.
+
+Lemma field_eq_dec (f g : field) : {f = g} + {f <> g}.
+Proof. decide equality. Defined.
+Lemma extends_refl p : extends p p.
+Proof. intros f v H. exact H. Qed.
+Lemma extends_trans p q r : extends p q -> extends q r -> extends p r.
+Proof. intros H1 H2 f v H. auto. Qed.
+Lemma typed_new : typed parsed_new.
+Proof. intros f v H. destruct f; discriminate. Qed.
+Lemma typed_pput f v p : typed p -> ftype f v -> typed (pput f (Some v) p).
+Proof.
+  intros Hp Hv g w H. destruct (field_eq_dec f g) as [->|Hne].
+  - rewrite pget_pput_same in H. inversion H; subst. exact Hv.
+  - rewrite pget_pput_other in H by exact Hne. apply Hp. exact H.
+Qed.
+Lemma typed_date p : typed p -> date_fields_typed p.
+Proof.
+  intros H. unfold date_fields_typed, i32v, u32v.
+  repeat match goal with |- _ /\ _ => split end;
+  try (match goal with |- match ?o with _ => _ end => destruct o as [v|] eqn:E; [|exact I] end).
+  - apply (H F_year _ E).
+  - apply (H F_year_div_100 _ E).
+  - apply (H F_year_mod_100 _ E).
+  - apply (H F_isoyear _ E).
+  - apply (H F_isoyear_div_100 _ E).
+  - apply (H F_isoyear_mod_100 _ E).
+  - apply (H F_month _ E).
+  - apply (H F_day _ E).
+  - apply (H F_isoweek _ E).
+  - intros v Hv. apply (H F_weekday _ Hv).
+Qed.
+
+Lemma set_if_consistent_inv f p v q : set_if_consistent f p v = (q, Ok tt) ->
+  q = pput f (Some v) p /\ extends p q.
+Proof.
+  unfold set_if_consistent. destruct (pget f p) as [old|] eqn:E.
+  - destruct (old =? v) eqn:E2; cbn [negb]; intros H; inversion H; subst. split; [reflexivity|].
+    intros g w Hg. destruct (field_eq_dec f g) as [->|Hne].
+    + rewrite pget_pput_same. rewrite E in Hg. inversion Hg; subst. f_equal. lia.
+    + rewrite pget_pput_other by exact Hne. exact Hg.
+  - intros H; inversion H; subst. split; [reflexivity|].
+    intros g w Hg. destruct (field_eq_dec f g) as [->|Hne].
+    + congruence.
+    + rewrite pget_pput_other by exact Hne. exact Hg.
+Qed.
+Lemma set_checked_inv f lo hi cast p v q : set_checked f lo hi cast p v = (q, Ok tt) ->
+  lo <= v <= hi /\ q = pput f (Some (cast v)) p /\ extends p q.
+Proof.
+  unfold set_checked. destruct (contains lo hi v) eqn:E; cbn [negb]; [|discriminate].
+  apply contains_spec in E. intros H. apply set_if_consistent_inv in H. tauto.
+Qed.
+Lemma tryset_ok r q : tryset r = Val (Ok q) -> exists u, r = (q, Ok u).
+Proof. unfold tryset. destruct r as [p [u|e]]; intros H; inversion H; subst. eauto. Qed.
+Lemma unit_tt (u : unit) : u = tt.
+Proof. destruct u; reflexivity. Qed.
+
+(** soundness is inherited by a state with fewer fields *)
+Lemma year_parts_mono y q r y' q' r' Y :
+  (forall v, y = Some v -> y' = Some v) -> (forall v, q = Some v -> q' = Some v) ->
+  (forall v, r = Some v -> r' = Some v) -> year_parts_sound y' q' r' Y -> year_parts_sound y q r Y.
+Proof.
+  intros H1 H2 H3 (A1 & A2 & A3). unfold year_parts_sound.
+  split; [intros v Hv; apply A1; auto|]. split; [intros v Hv; apply A2; auto|intros v Hv; apply A3; auto].
+Qed.
+Lemma date_sound_mono p q d : extends p q -> date_sound q d -> date_sound p d.
+Proof.
+  intros E (S1 & (iw & Hiw & S2 & S2') & S3 & S4 & S5 & S6 & S7 & S8 & S9).
+  pose proof (fun f => E f) as Ef.
+  unfold date_sound. split.
+  { eapply year_parts_mono; [apply (Ef F_year)|apply (Ef F_year_div_100)|apply (Ef F_year_mod_100)|exact S1]. }
+  split.
+  { exists iw. split; [exact Hiw|]. split.
+    - eapply year_parts_mono; [apply (Ef F_isoyear)|apply (Ef F_isoyear_div_100)|apply (Ef F_isoyear_mod_100)|exact S2].
+    - intros v Hv. apply S2'. apply (Ef F_isoweek). exact Hv. }
+  split; [intros v Hv; apply S3; apply (Ef F_quarter); exact Hv|].
+  split; [intros v Hv; apply S4; apply (Ef F_month); exact Hv|].
+  split; [intros v Hv; apply S5; apply (Ef F_week_from_sun); exact Hv|].
+  split; [intros v Hv; apply S6; apply (Ef F_week_from_mon); exact Hv|].
+  split; [intros v Hv; apply S7; apply (Ef F_weekday); exact Hv|].
+  split; [intros v Hv; apply S8; apply (Ef F_ordinal); exact Hv|].
+  intros v Hv; apply S9; apply (Ef F_day); exact Hv.
+Qed.
+
+(** every supplied time field equals the corresponding field of the time [t] *)
+Definition time_sound (p : parsed) (t : Time.ntime) : Prop :=
+  (forall v, p_hour_div_12 p = Some v -> v = Time.hour t / 12) /\
+  (forall v, p_hour_mod_12 p = Some v -> v = Time.hour t mod 12) /\
+  (forall v, p_minute p = Some v -> v = Time.minute t) /\
+  (forall v, p_second p = Some v -> v = Time.second t + (if Time.nanosecond t >=? 1000000000 then 1 else 0)) /\
+  (forall v, p_nanosecond p = Some v -> v = Time.nanosecond t mod 1000000000).
+Lemma time_sound_mono p q t : extends p q -> time_sound q t -> time_sound p t.
+Proof.
+  intros E (S1 & S2 & S3 & S4 & S5). pose proof (fun f => E f) as Ef. unfold time_sound.
+  split; [intros v Hv; apply S1; apply (Ef F_hour_div_12); exact Hv|].
+  split; [intros v Hv; apply S2; apply (Ef F_hour_mod_12); exact Hv|].
+  split; [intros v Hv; apply S3; apply (Ef F_minute); exact Hv|].
+  split; [intros v Hv; apply S4; apply (Ef F_second); exact Hv|].
+  intros v Hv; apply S5; apply (Ef F_nanosecond); exact Hv.
+Qed.
+Lemma typed_time p : typed p ->
+  u32v (p_hour_div_12 p) /\ u32v (p_hour_mod_12 p) /\ u32v (p_minute p) /\ u32v (p_second p) /\ u32v (p_nanosecond p).
+Proof.
+  intros H. unfold u32v.
+  repeat match goal with |- _ /\ _ => split end;
+  match goal with |- match ?o with _ => _ end => destruct o as [v|] eqn:E; [|exact I] end.
+  - apply (H F_hour_div_12 _ E).
+  - apply (H F_hour_mod_12 _ E).
+  - apply (H F_minute _ E).
+  - apply (H F_second _ E).
+  - apply (H F_nanosecond _ E).
+Qed.
+Lemma to_naive_time_sound' p t : typed p -> to_naive_time p = Val (Ok t) -> time_sound p t.
+Proof.
+  intros T H. destruct (typed_time p T) as (U1 & U2 & U3 & U4 & U5).
+  destruct (to_naive_time_sound p t U1 U2 U3 U4 U5 H) as (S1 & S2 & S3 & S4 & S5 & _).
+  unfold time_sound. tauto.
+Qed.
+
+(** one accepted setter call: the state is extended by exactly that field *)
+Lemma set_checked_step f lo hi cast p v q u :
+  typed p -> set_checked f lo hi cast p v = (q, Ok u) -> (lo <= v <= hi -> ftype f (cast v)) ->
+  typed q /\ extends p q /\ pget f q = Some (cast v) /\ lo <= v <= hi.
+Proof.
+  intros T H Ht. rewrite (unit_tt u) in H. apply set_checked_inv in H. destruct H as (R & -> & E).
+  split; [apply typed_pput; auto|]. split; [exact E|]. split; [apply pget_pput_same|exact R].
+Qed.
+Lemma set_hour_step p h q u : typed p -> set_hour p h = Val (q, Ok u) ->
+  typed q /\ extends p q /\ pget F_hour_div_12 q = Some (h / 12) /\ pget F_hour_mod_12 q = Some (h mod 12) /\
+  0 <= h <= 23.
+Proof.
+  intros T H. rewrite set_hour_value in H. inversion H as [H']. clear H.
+  destruct (contains 0 23 h) eqn:E; [|discriminate]. apply contains_spec in E.
+  destruct (set_if_consistent F_hour_div_12 p (h / 12)) as [p1 [u1|e1]] eqn:E1; [|discriminate].
+  rewrite (unit_tt u1) in E1. rewrite (unit_tt u) in H'.
+  apply set_if_consistent_inv in E1. destruct E1 as (-> & X1).
+  apply set_if_consistent_inv in H'. destruct H' as (-> & X2).
+  split.
+  { apply typed_pput; [apply typed_pput; [exact T|]|]; cbn; unfold u32_max; lia. }
+  split; [eapply extends_trans; eauto|].
+  split; [|split; [apply pget_pput_same|exact E]].
+  rewrite pget_pput_other by discriminate. apply pget_pput_same.
+Qed.
+
+Section DateTimeFacts.
+  Hypothesis Hyp_from_ymd : forall y m d dt,
+    in_i32 y = true -> 0 <= m <= u32_max -> 0 <= d <= u32_max ->
+    Date.from_ymd_opt y m d = Val (Some dt) ->
+    Date.d_year dt = y /\ Date.d_month dt = Val m /\ Date.d_day dt = Val d.
+  Hypothesis Hyp_from_isoywd : forall y w wd dt,
+    in_i32 y = true -> 0 <= w <= u32_max -> 0 <= wd <= 6 ->
+    Date.from_isoywd_opt y w wd = Val (Some dt) ->
+    exists iw, Date.d_iso_week dt = Val iw /\ Date.iw_year iw = y /\ Date.iw_week iw = w /\
+               Date.d_weekday dt = Val wd.
+
+  Lemma date_sound_typed p d : typed p -> to_naive_date p = Val (Ok d) -> date_sound p d.
+  Proof.
+    intros T H. eapply to_naive_date_sound_modulo_date; eauto. apply typed_date; exact T.
+  Qed.
+
+  (** the supplied timestamp is the value's own count of non-leap seconds (one more is accepted for
+      a leap-second value), or -- when date and time are rebuilt from the timestamp -- the value
+      carries the calendar fields of that instant (stepped back one second for second = 60) *)
+  Definition ts_sound (p : parsed) (v : ndt) (off : Z) : Prop :=
+    forall g, p_timestamp p = Some g ->
+    (exists t0, dt_timestamp v = Val t0 /\
+       (g = t0 - off \/ (Time.nanosecond (nd_time v) >= 1000000000 /\ g = t0 - off + 1)))
+    \/
+    (exists dtm0 dtm, dt_from_timestamp (g + off) 0 = Val (Some dtm0) /\
+       (dtm = dtm0 \/
+        (p_second p = Some 60 /\ Time.second (nd_time dtm0) = 0 /\
+         exists one, try_seconds 1 = Some one /\ ndt_checked_sub_signed dtm0 one = Val (Some dtm))) /\
+       Date.d_year (nd_date v) = Date.d_year (nd_date dtm) /\
+       Date.d_ordinal (nd_date v) = Date.d_ordinal (nd_date dtm) /\
+       Time.hour (nd_time v) = Time.hour (nd_time dtm) /\
+       Time.minute (nd_time v) = Time.minute (nd_time dtm) /\
+       (p_second p = Some 60 \/
+        Time.second (nd_time dtm) =
+          Time.second (nd_time v) + (if Time.nanosecond (nd_time v) >=? 1000000000 then 1 else 0))).
+
+  Theorem to_naive_datetime_sound_modulo_date p off v :
+    typed p -> in_i32 off = true ->
+    to_naive_datetime_with_offset p off = Val (Ok v) ->
+    date_sound p (nd_date v) /\ time_sound p (nd_time v) /\ ts_sound p v off.
+  Proof.
+    intros T Hoff H. unfold to_naive_datetime_with_offset in H.
+    apply bind_val in H. destruct H as (date & Hdate & H).
+    apply bind_val in H. destruct H as (time & Htime & H).
+    assert (PathB : forall timestamp, p_timestamp p = Some timestamp ->
+      (if is_err_kind date OutOfRange || is_err_kind time OutOfRange then Val (Err OutOfRange)
+       else if is_err_kind date Impossible || is_err_kind time Impossible then Val (Err Impossible)
+       else
+        let! ts := ok_or (checked_add in_i64 timestamp off) OutOfRange in
+        let! datetime := ok_or_r (dt_from_timestamp ts 0) OutOfRange in
+        let! '(datetime, parsed) :=
+          (if opt_eqb (p_second p) (Some 60) then
+             let sec := Time.second (nd_time datetime) in
+             if sec =? 59 then Val (Ok (datetime, p))
+             else if sec =? 0 then
+               let* one := unwrap (try_seconds 1) in
+               let! d := ok_or_r (ndt_checked_sub_signed datetime one) OutOfRange in
+               Val (Ok (d, p))
+             else Val (Err Impossible)
+           else
+             let! p1 := tryset (set_second p (Time.second (nd_time datetime))) in
+             Val (Ok (datetime, p1))) in
+        let! parsed := tryset (set_year parsed (Date.d_year (nd_date datetime))) in
+        let! parsed := tryset (set_ordinal parsed (Date.d_ordinal (nd_date datetime))) in
+        let* sh := set_hour parsed (Time.hour (nd_time datetime)) in
+        let! parsed := tryset sh in
+        let! parsed := tryset (set_minute parsed (Time.minute (nd_time datetime))) in
+        let! date := to_naive_date parsed in
+        let! time := to_naive_time parsed in
+        Val (Ok (mk_ndt date time))) = Val (Ok v) ->
+      date_sound p (nd_date v) /\ time_sound p (nd_time v) /\ ts_sound p v off).
+    { intros g Hg HB.
+      destruct (is_err_kind date OutOfRange || is_err_kind time OutOfRange); [discriminate|].
+      destruct (is_err_kind date Impossible || is_err_kind time Impossible); [discriminate|].
+      apply ebind_ok in HB. destruct HB as (ts & Hts & HB).
+      apply ebind_ok in HB. destruct HB as (dtm0 & Hdtm0 & HB). apply ok_or_r_ok in Hdtm0.
+      apply ebind_ok in HB. destruct HB as ([dtm p1] & Hstep & HB).
+      apply ebind_ok in HB. destruct HB as (p2 & Hp2 & HB).
+      apply ebind_ok in HB. destruct HB as (p3 & Hp3 & HB).
+      apply bind_val in HB. destruct HB as (sh & Hsh & HB).
+      apply ebind_ok in HB. destruct HB as (p4 & Hp4 & HB).
+      apply ebind_ok in HB. destruct HB as (p5 & Hp5 & HB).
+      apply ebind_ok in HB. destruct HB as (d' & Hd' & HB).
+      apply ebind_ok in HB. destruct HB as (t' & Ht' & HB). inversion HB; subst v. clear HB.
+      cbn [nd_date nd_time].
+      assert (Ets : ts = g + off).
+      { unfold ok_or, checked_add, chko in Hts. destruct (in_i64 (g + off)); inversion Hts. reflexivity. }
+      subst ts.
+      (* the second field / the leap-second step *)
+      assert (S1 : typed p1 /\ extends p p1 /\
+                   (dtm = dtm0 \/
+                    (p_second p = Some 60 /\ Time.second (nd_time dtm0) = 0 /\
+                     exists one, try_seconds 1 = Some one /\ ndt_checked_sub_signed dtm0 one = Val (Some dtm))) /\
+                   (p_second p = Some 60 \/ pget F_second p1 = Some (Time.second (nd_time dtm)))).
+      { destruct (opt_eqb (p_second p) (Some 60)) eqn:E60.
+        - assert (p_second p = Some 60).
+          { destruct (p_second p) as [s|]; cbn in E60; [f_equal; lia|discriminate]. }
+          cbv zeta in Hstep. destruct (Time.second (nd_time dtm0) =? 59) eqn:E59.
+          + inversion Hstep; subst. split; [exact T|]. split; [apply extends_refl|]. auto.
+          + destruct (Time.second (nd_time dtm0) =? 0) eqn:E0; [|discriminate].
+            apply bind_val in Hstep. destruct Hstep as (one & Hone & Hstep).
+            apply ebind_ok in Hstep. destruct Hstep as (dd & Hdd & Hstep). apply ok_or_r_ok in Hdd.
+            inversion Hstep; subst. split; [exact T|]. split; [apply extends_refl|]. split; [|auto].
+            right. split; [assumption|]. split; [lia|]. exists one. split; [|exact Hdd].
+            unfold unwrap in Hone. destruct (try_seconds 1); inversion Hone. reflexivity.
+        - apply ebind_ok in Hstep. destruct Hstep as (q & Hq & Hstep). inversion Hstep; subst. clear Hstep.
+          apply tryset_ok in Hq. destruct Hq as (u & Hq). unfold set_second in Hq.
+          apply set_checked_step in Hq; [|exact T|intros R; rewrite as_u32_small by (unfold u32_max; lia); unfold ftype, u32_max; lia].
+          destruct Hq as (Tq & Eq & Gq & Rq). rewrite as_u32_small in Gq by (unfold u32_max; lia).
+          split; [exact Tq|]. split; [exact Eq|]. split; [left; reflexivity|right; exact Gq]. }
+      destruct S1 as (T1 & E1 & Hdtm & Hsec).
+      apply tryset_ok in Hp2. destruct Hp2 as (u2 & Hp2). unfold set_year in Hp2.
+      apply set_checked_step in Hp2; [|exact T1|intros R; unfold ftype, in_i32, in_range; lia].
+      destruct Hp2 as (T2 & E2 & G2 & R2).
+      apply tryset_ok in Hp3. destruct Hp3 as (u3 & Hp3). unfold set_ordinal in Hp3.
+      apply set_checked_step in Hp3; [|exact T2|intros R; rewrite as_u32_small by (unfold u32_max; lia); unfold ftype, u32_max; lia].
+      destruct Hp3 as (T3 & E3 & G3 & R3). rewrite as_u32_small in G3 by (unfold u32_max; lia).
+      apply tryset_ok in Hp4. destruct Hp4 as (u4 & Hp4). subst sh.
+      apply set_hour_step in Hsh; [|exact T3]. destruct Hsh as (T4 & E4 & G4a & G4b & R4).
+      apply tryset_ok in Hp5. destruct Hp5 as (u5 & Hp5). unfold set_minute in Hp5.
+      apply set_checked_step in Hp5; [|exact T4|intros R; rewrite as_u32_small by (unfold u32_max; lia); unfold ftype, u32_max; lia].
+      destruct Hp5 as (T5 & E5 & G5 & R5). rewrite as_u32_small in G5 by (unfold u32_max; lia).
+      assert (E15 : extends p p5) by (repeat (eapply extends_trans; [eassumption|]); apply extends_refl).
+      pose proof (date_sound_typed p5 d' T5 Hd') as DS.
+      pose proof (to_naive_time_sound' p5 t' T5 Ht') as TS.
+      split; [eapply date_sound_mono; eauto|]. split; [eapply time_sound_mono; eauto|].
+      intros g' Hg'. rewrite Hg in Hg'. inversion Hg'; subst g'. right.
+      exists dtm0, dtm. split; [exact Hdtm0|]. split; [exact Hdtm|].
+      destruct DS as ((Y1 & _ & _) & _ & _ & _ & _ & _ & _ & O1 & _).
+      destruct TS as (H1 & H2 & H3 & H4 & _).
+      assert (G2' : pget F_year p5 = Some (Date.d_year (nd_date dtm))) by (apply E5, E4, E3; exact G2).
+      assert (G3' : pget F_ordinal p5 = Some (Date.d_ordinal (nd_date dtm))) by (apply E5, E4; exact G3).
+      assert (G4a' : pget F_hour_div_12 p5 = Some (Time.hour (nd_time dtm) / 12)) by (apply E5; exact G4a).
+      assert (G4b' : pget F_hour_mod_12 p5 = Some (Time.hour (nd_time dtm) mod 12)) by (apply E5; exact G4b).
+      split; [apply (Y1 _ G2')|]. split; [apply (O1 _ G3')|].
+      specialize (H1 _ G4a'). specialize (H2 _ G4b'). specialize (H3 _ G5). cbn [nd_date nd_time].
+      split; [lia|]. split; [lia|].
+      destruct Hsec as [Hs|Hs]; [left; exact Hs|right].
+      assert (Hs' : pget F_second p5 = Some (Time.second (nd_time dtm))) by (apply E5, E4, E3, E2; exact Hs).
+      apply (H4 _ Hs'). }
+    destruct date as [d|ed], time as [t|et].
+    - (* from date and time fields *)
+      apply bind_val in H. destruct H as (ts0 & Hts0 & H).
+      apply bind_val in H. destruct H as (timestamp & Htimestamp & H).
+      pose proof (date_sound_typed p d T Hdate) as DS.
+      pose proof (to_naive_time_sound' p t T Htime) as TS.
+      unfold sub_i64, chk in Htimestamp. destruct (in_i64 (ts0 - off)); inversion Htimestamp; subst timestamp.
+      destruct (p_timestamp p) as [g|] eqn:Eg.
+      + apply bind_val in H. destruct H as (bad & Hbad & H). destruct bad; [discriminate|].
+        inversion H; subst v. cbn [nd_date nd_time]. split; [exact DS|]. split; [exact TS|].
+        intros g' Hg'. rewrite Eg in Hg'. inversion Hg'; subst g'. left. exists ts0. split; [exact Hts0|].
+        destruct (g =? ts0 - off) eqn:E1; cbn [negb] in Hbad; [left; lia|].
+        cbn [nd_time] in Hbad.
+        destruct (Time.nanosecond t >=? 1000000000) eqn:E2; [|discriminate].
+        apply bind_val in Hbad. destruct Hbad as (t1 & Ht1 & Hbad).
+        unfold add_i64, chk in Ht1. destruct (in_i64 (ts0 - off + 1)); inversion Ht1; subst t1.
+        inversion Hbad. right. cbn [nd_time]. split; [lia|].
+        destruct (g =? ts0 - off + 1) eqn:E3; cbn [negb] in *; [lia|discriminate].
+      + inversion H; subst v. cbn [nd_date nd_time]. split; [exact DS|]. split; [exact TS|].
+        intros g' Hg'. rewrite Eg in Hg'. discriminate.
+    - destruct (p_timestamp p) as [g|] eqn:Eg; [eapply PathB; eauto|discriminate].
+    - destruct (p_timestamp p) as [g|] eqn:Eg; [eapply PathB; eauto|discriminate].
+    - destruct (p_timestamp p) as [g|] eqn:Eg; [eapply PathB; eauto|discriminate].
+  Qed.
+End DateTimeFacts.
+
+(** * to_fixed_offset, to_datetime, to_datetime_with_timezone *)
+Lemma east_opt_spec o : east_opt o = (if (-86400 <? o) && (o <? 86400) then Some o else None).
+Proof. reflexivity. Qed.
+
+(** complete description of [to_fixed_offset] *)
+Theorem to_fixed_offset_spec p :
+  to_fixed_offset p =
+  Val (match p_offset p with
+       | None => Err NotEnough
+       | Some o => if (-86400 <? o) && (o <? 86400) then Ok o else Err OutOfRange
+       end).
+Proof.
+  unfold to_fixed_offset, ok_or. destruct (p_offset p) as [o|]; cbn [ebind bind]; [|reflexivity].
+  rewrite east_opt_spec. destruct ((-86400 <? o) && (o <? 86400)); reflexivity.
+Qed.
+
+Lemma from_local_single off local z : from_local_datetime off local = Val (MSingle z) ->
+  dz_off z = off /\ ndt_checked_sub_offset local off = Val (Some (dz_utc z)).
+Proof.
+  unfold from_local_datetime. intros H. apply bind_val in H. destruct H as ([u|] & Hu & H); inversion H; subst.
+  cbn [dz_off dz_utc]. auto.
+Qed.
+Lemma from_local_not_ambiguous off local a b : from_local_datetime off local <> Val (MAmbiguous a b).
+Proof.
+  unfold from_local_datetime. intros H. apply bind_val in H. destruct H as ([u|] & Hu & H); inversion H.
+Qed.
+
+Section ZonedFacts.
+  Hypothesis Hyp_from_ymd : forall y m d dt,
+    in_i32 y = true -> 0 <= m <= u32_max -> 0 <= d <= u32_max ->
+    Date.from_ymd_opt y m d = Val (Some dt) ->
+    Date.d_year dt = y /\ Date.d_month dt = Val m /\ Date.d_day dt = Val d.
+  Hypothesis Hyp_from_isoywd : forall y w wd dt,
+    in_i32 y = true -> 0 <= w <= u32_max -> 0 <= wd <= 6 ->
+    Date.from_isoywd_opt y w wd = Val (Some dt) ->
+    exists iw, Date.d_iso_week dt = Val iw /\ Date.iw_year iw = y /\ Date.iw_week iw = w /\
+               Date.d_weekday dt = Val wd.
+
+  (** a zoned result [z]: its local reading agrees with every supplied date / time field and with
+      the timestamp; its offset is the supplied one *)
+  Definition zoned_sound (p : parsed) (z : dtz) : Prop :=
+    exists local,
+      ndt_checked_sub_offset local (dz_off z) = Val (Some (dz_utc z)) /\
+      -86400 < dz_off z < 86400 /\
+      date_sound p (nd_date local) /\ time_sound p (nd_time local) /\ ts_sound p local (dz_off z) /\
+      (forall o, p_offset p = Some o -> dz_off z = o).
+
+  Theorem to_datetime_sound_modulo_date p z :
+    typed p -> to_datetime p = Val (Ok z) ->
+    zoned_sound p z /\ (p_offset p = None -> dz_off z = 0 /\ p_timestamp p <> None).
+  Proof.
+    intros T H. unfold to_datetime in H.
+    apply ebind_ok in H. destruct H as (offset & Hoff & H).
+    apply ebind_ok in H. destruct H as (local & Hlocal & H).
+    apply ebind_ok in H. destruct H as (off' & Hoff' & H).
+    apply bind_val in H. destruct H as (m & Hm & H).
+    unfold ok_or in Hoff'. rewrite east_opt_spec in Hoff'.
+    destruct ((-86400 <? offset) && (offset <? 86400)) eqn:Er; inversion Hoff'; subst off'. clear Hoff'.
+    destruct m as [|t|a b]; inversion H; subst t. clear H.
+    apply from_local_single in Hm. destruct Hm as [Hz Hu].
+    assert (Hi : in_i32 offset = true) by (unfold in_i32, in_range, i32_min, i32_max; lia).
+    destruct (to_naive_datetime_sound_modulo_date Hyp_from_ymd Hyp_from_isoywd p offset local T Hi Hlocal) as (DS & TS & SS).
+    split.
+    - exists local. rewrite Hz. split; [exact Hu|]. split; [lia|]. split; [exact DS|]. split; [exact TS|].
+      split; [exact SS|]. intros o Ho. rewrite Ho in Hoff. inversion Hoff. reflexivity.
+    - intros Hn. rewrite Hn in Hoff. destruct (p_timestamp p); inversion Hoff as [Ho]. split; [rewrite Hz; symmetry; exact Ho|discriminate].
+  Qed.
+
+  Theorem to_datetime_with_timezone_sound_modulo_date p tz z :
+    typed p -> -86400 < tz < 86400 -> to_datetime_with_timezone p tz = Val (Ok z) ->
+    zoned_sound p z /\ dz_off z = tz.
+  Proof.
+    intros T Htz H. unfold to_datetime_with_timezone in H.
+    apply ebind_ok in H. destruct H as (guessed & Hg & H).
+    apply ebind_ok in H. destruct H as (local & Hlocal & H).
+    apply bind_val in H. destruct H as (m & Hm & H).
+    destruct m as [|t|a b]; [discriminate| |exfalso; eapply from_local_not_ambiguous; eauto].
+    apply from_local_single in Hm. destruct Hm as [Hz Hu].
+    assert (Hcheck : (match p_offset p with Some offset => dz_off t =? offset | None => true end) = true /\ t = z).
+    { destruct (match p_offset p with Some offset => dz_off t =? offset | None => true end); inversion H; auto. }
+    destruct Hcheck as [Hc ->]. clear H.
+    assert (Hgv : guessed = tz \/ (guessed = 0 /\ p_timestamp p = None)).
+    { destruct (p_timestamp p) as [g|].
+      - apply ebind_ok in Hg. destruct Hg as (dt & _ & Hg). inversion Hg. auto.
+      - inversion Hg. auto. }
+    assert (Hi : in_i32 guessed = true) by (unfold in_i32, in_range, i32_min, i32_max; lia).
+    destruct (to_naive_datetime_sound_modulo_date Hyp_from_ymd Hyp_from_isoywd p guessed local T Hi Hlocal) as (DS & TS & SS).
+    split; [|exact Hz].
+    exists local. rewrite Hz. split; [exact Hu|]. split; [exact Htz|]. split; [exact DS|]. split; [exact TS|]. split.
+    - destruct Hgv as [->|[-> Hn]]; [exact SS|]. intros g Hg'. congruence.
+    - intros o Ho. rewrite Ho in Hc. rewrite Hz in Hc. lia.
+  Qed.
+End ZonedFacts.
+
+(** * The two constructor facts as named propositions (statements of Proofs/Date.v) *)
+Definition Fact_from_ymd : Prop := forall y m d dt,
+  in_i32 y = true -> 0 <= m <= u32_max -> 0 <= d <= u32_max ->
+  Date.from_ymd_opt y m d = Val (Some dt) ->
+  Date.d_year dt = y /\ Date.d_month dt = Val m /\ Date.d_day dt = Val d.
+Definition Fact_from_isoywd : Prop := forall y w wd dt,
+  in_i32 y = true -> 0 <= w <= u32_max -> 0 <= wd <= 6 ->
+  Date.from_isoywd_opt y w wd = Val (Some dt) ->
+  exists iw, Date.d_iso_week dt = Val iw /\ Date.iw_year iw = y /\ Date.iw_week iw = w /\
+             Date.d_weekday dt = Val wd.
+
+(** * Worked examples (the documentation example of Parsed; the repaired defect) *)
+Definition ex_fields (weekday : Z) : parsed :=
+  pput F_offset (Some 0) (pput F_second (Some 40) (pput F_minute (Some 26)
+  (pput F_hour_mod_12 (Some 4) (pput F_hour_div_12 (Some 0)
+  (pput F_year (Some 2014) (pput F_month (Some 12) (pput F_day (Some 31)
+  (pput F_weekday (Some weekday) parsed_new)))))))).
+Lemma ex_doc_ok : to_datetime (ex_fields 2) =
+  Val (Ok (mk_dtz (mk_ndt (match Date.from_ymd_opt 2014 12 31 with Val (Some d) => d | _ => 0 end)
+                          (Time.mk_time 16000 0)) 0)).
+Proof. vm_compute. reflexivity. Qed.
+Lemma ex_doc_wrong_weekday : to_datetime (ex_fields 3) = Val (Err Impossible).
+Proof. vm_compute. reflexivity. Qed.
+Lemma ex_typed : typed (ex_fields 2).
+Proof.
+  unfold ex_fields. repeat (apply typed_pput; [|cbn; unfold in_i32, in_range, i32_min, i32_max, u32_max; lia]).
+  apply typed_new.
+Qed.
+(** the repaired defect: the leap-second step before the earliest representable second *)
+Definition ex_min_leap : parsed := pput F_second (Some 60) (pput F_timestamp (Some (-8334601228800)) parsed_new).
+Lemma ex_min_leap_out_of_range : to_naive_datetime_with_offset ex_min_leap 0 = Val (Err OutOfRange).
+Proof. vm_compute. reflexivity. Qed.
+Lemma ex_leap_second : exists v,
+  to_naive_datetime_with_offset (pput F_second (Some 60) (pput F_timestamp (Some 1341100800) parsed_new)) 0 = Val (Ok v)
+  /\ Time.tsecs (nd_time v) = 86399 /\ Time.tfrac (nd_time v) = 1000000000.
+Proof. eexists. split; [vm_compute; reflexivity|]. split; reflexivity. Qed.
+Lemma ex_year_groups :
+  resolve_year None None (Some 69) = Val (Ok (Some 2069)) /\ resolve_year None None (Some 70) = Val (Ok (Some 1970)) /\
+  resolve_year None (Some 19) (Some 84) = Val (Ok (Some 1984)) /\ resolve_year (Some (-5)) (Some 0) None = Val (Err Impossible) /\
+  resolve_year None (Some 20) None = Val (Err NotEnough) /\
+  resolve_year None (Some 21474836) (Some 48) = Val (Err OutOfRange).
+Proof. repeat split; vm_compute; reflexivity. Qed.
